@@ -117,6 +117,7 @@ def run_property(pid, spec, tier, seed, scratch, logdir, a, t0):
         print(f"INCONCLUSIVE property={pid}: cannot prepare scratch copy: {e}")
         return 2
     seg_info = info.get("segments", {})
+    seg_info = contain_segment_compile_errors(scratch, info, seg_info, logdir)
     harnesses = [h for h in spec["harnesses"] if tier == "thorough" or h.get("tier", "quick") == "quick"]
     if a.replay:
         return do_replay_file(pid, a.replay, scratch)
@@ -240,18 +241,55 @@ def run_property(pid, spec, tier, seed, scratch, logdir, a, t0):
     return rc
 
 
+def contain_segment_compile_errors(scratch, info, seg_info, logdir):
+    """Build once; if the crate does not compile because the text of a cut segment no longer
+    fits its declared live-in variables (the source was restructured), replace exactly those
+    segments by placeholders (their harnesses become inconclusive) and keep the rest."""
+    from runner import segments
+
+    pool = TdPool()
+    disabled = {}
+    for _ in range(4):
+        td, lk = pool.acquire()
+        try:
+            r = kani.run(scratch, "build_probe", td, 1200, 20, (), logdir, full="mpc::protocol::__verif::build_probe")
+        finally:
+            pool.release(lk)
+        if r["outcome"] == "pass" or r.get("why") != "compile error":
+            break
+        log = open(r["log"]).read() if r.get("log") else ""
+        hit = {}
+        for m in re.finditer(r"^(error[^\n]*)\n\s*--> ([^\n:]*segs_(\w+)\.rs):(\d+):\d+", log, re.M):
+            msg, _, mod, line = m.group(1), m.group(2), m.group(3), int(m.group(4))
+            for name, si in seg_info.items():
+                gl = si.get("gen_lines")
+                if si.get("gen_file") == f"segs_{mod}.rs" and gl and gl[0] <= line <= gl[1] and name not in disabled:
+                    hit[name] = msg[:160]
+        if not hit:
+            break
+        disabled.update(hit)
+        seg_info = segments.generate(scratch, info["harness_dir"], disabled)
+    return seg_info
+
+
 def replay_failures(pid, scratch, info, r, unlisted, logdir):
     """Concrete playback of the failing harness, native run of the generated tests."""
     out = []
     pool = TdPool()
     td, lk = pool.acquire()
     try:
-        pr = kani.run(scratch, r["harness"], td, 5400, 44, (), logdir, playback=True, full=r.get("full"))
-        tests = pr.get("playback_tests", [])
         rcopy = prep.make_replay_copy(scratch)
         hfile = find_harness_file(os.path.join(rcopy, "verif_harness"), r["harness"])
-        for f in unlisted:
+        # one violation is enough to fail the check: replay at most two distinct failures
+        for f in unlisted[:2]:
+            pr = kani.run(scratch, r["harness"], td, 5400, 44, (), logdir, playback=True, full=r.get("full"), only_property=f.get("id"))
+            tests = pr.get("playback_tests", [])
             cands = [t for t in tests if f["desc"] in t["check"] or t["check"] in f["desc"]]
+            if not cands:
+                # fall back to an unrestricted playback run
+                pr = kani.run(scratch, r["harness"], td, 5400, 44, (), logdir, playback=True, full=r.get("full"))
+                tests = pr.get("playback_tests", [])
+                cands = [t for t in tests if f["desc"] in t["check"] or t["check"] in f["desc"]]
             if not cands or not hfile:
                 out.append((f, None, None))
                 continue
@@ -267,6 +305,8 @@ def replay_failures(pid, scratch, info, r, unlisted, logdir):
                 fh.write(t["code"] + "\n")
                 fh.write("/* native replay log (tail):\n" + log[-3000:].replace("*/", "* /") + "\n*/\n")
             out.append((f, rp, ok))
+            if ok:
+                break
     finally:
         pool.release(lk)
         shutil.rmtree(scratch.rstrip("/") + ".replay", ignore_errors=True)
